@@ -11,6 +11,8 @@
 //!   ["si",key,v,f]   StreamItem key v f   the stream(s) named `key` get an item (f: 0 none,1 true,2 false)
 //!   ["se",key]       StreamEnd key        ... get end-of-stream
 //!   ["p"]            Poll                 poll the server future once
+//!   ["hg",t,k]       HandleGate t k       Service::handle of the call tagged t suspends for k polls
+//!   ["wp",c,j,k]     WritePend c j k      the j-th write call on c stays pending for k polls first
 //! stdout: one JSON result per line: per poll the ordered trace of observable events and the
 //! number of unread bytes per connection, the decode oracle for every NUL-delimited segment and
 //! the reply templates (rendered by serde_json, independently of the server).
@@ -40,6 +42,25 @@ use zv::*;
 
 type Trace = Rc<RefCell<Vec<Vec<u64>>>>;
 
+// ---------------------------------------------------------------- logging
+/// A tracing subscriber that is interested in everything and throws it all away: every log argument
+/// expression of the library is evaluated on every run (as with RUST_LOG=trace in production).
+struct Everything;
+use zlink_core::log::tracing::{self, span};
+impl tracing::Subscriber for Everything {
+    fn enabled(&self, _: &tracing::Metadata<'_>) -> bool {
+        true
+    }
+    fn new_span(&self, _: &span::Attributes<'_>) -> span::Id {
+        span::Id::from_u64(1)
+    }
+    fn record(&self, _: &span::Id, _: &span::Record<'_>) {}
+    fn record_follows_from(&self, _: &span::Id, _: &span::Id) {}
+    fn event(&self, _: &tracing::Event<'_>) {}
+    fn enter(&self, _: &span::Id) {}
+    fn exit(&self, _: &span::Id) {}
+}
+
 // ---------------------------------------------------------------- budgets
 // Every run is bounded: a server that does not return from one poll (e.g. because it keeps selecting a
 // dead connection) or a case that takes too long stops the run with a panic carrying the reason; main
@@ -51,6 +72,15 @@ thread_local! {
     static ITER: std::cell::Cell<u64> = const { std::cell::Cell::new(0) };
     static START: std::cell::Cell<Option<std::time::Instant>> = const { std::cell::Cell::new(None) };
 }
+thread_local! {
+    /// suspensions of Service::handle / of a reply write in the current poll
+    static GATE_PENDS: std::cell::Cell<u64> = const { std::cell::Cell::new(0) };
+}
+fn gate_pend() {
+    GATE_PENDS.with(|g| g.set(g.get() + 1));
+    note_pend();
+}
+
 fn budget_reset_case() {
     ITER.with(|i| i.set(0));
     START.with(|s| s.set(Some(std::time::Instant::now())));
@@ -83,6 +113,9 @@ struct SockState {
     wfail: Vec<u64>,
     dropped: bool,
     eof_reads: u64,
+    accepted: bool,
+    /// (write index, polls to stay pending)
+    wpend: Vec<(u64, u64)>,
 }
 type SockRef = Rc<RefCell<SockState>>;
 
@@ -110,8 +143,14 @@ impl ReadHalf for SockR {
                 return Poll::Ready(Ok(0));
             }
             match s.evs.pop_front() {
-                None => Poll::Pending,
-                Some(Ev::Pend) => Poll::Pending,
+                None => {
+                    note_pend();
+                    Poll::Pending
+                }
+                Some(Ev::Pend) => {
+                    note_pend();
+                    Poll::Pending
+                }
                 Some(Ev::Eof) => {
                     s.evs.push_front(Ev::Eof);
                     s.eof_reads += 1;
@@ -145,10 +184,24 @@ impl ReadHalf for SockR {
 impl WriteHalf for SockW {
     fn write(&mut self, buf: &[u8]) -> impl Future<Output = zlink_core::Result<()>> {
         let (c, sh, tr) = (self.0, self.1.clone(), self.2.clone());
+        // (index of this write call, polls it still stays pending); a write future that is dropped and
+        // re-created is a new write call
+        let mut started: Option<(u64, u64)> = None;
         std::future::poll_fn(move |_cx| {
             let mut s = sh.borrow_mut();
-            let k = s.wcnt;
-            s.wcnt += 1;
+            if started.is_none() {
+                let k = s.wcnt;
+                s.wcnt += 1;
+                let pend = s.wpend.iter().find(|(j, _)| *j == k).map(|(_, n)| *n).unwrap_or(0);
+                started = Some((k, pend));
+            }
+            let (k, pend) = started.unwrap();
+            if pend > 0 {
+                started = Some((k, pend - 1));
+                drop(s);
+                gate_pend();
+                return Poll::Pending;
+            }
             if s.wfail.contains(&k) {
                 tr.borrow_mut().push(vec![4, c]);
                 Poll::Ready(Err(zlink_core::Error::SocketWrite))
@@ -185,10 +238,14 @@ impl Listener for Lst {
             budget_tick();
             let next = q.borrow_mut().pop_front();
             match next {
-                None => Poll::Pending,
+                None => {
+                    note_pend();
+                    Poll::Pending
+                }
                 Some(None) => Poll::Ready(Err(zlink_core::Error::SocketRead)),
                 Some(Some(c)) => {
                     let sh = socks.borrow().get(&c).unwrap().clone();
+                    sh.borrow_mut().accepted = true;
                     trace.borrow_mut().push(vec![1, c]);
                     Poll::Ready(Ok(Connection::new(Sock(c, sh, trace.clone()))))
                 }
@@ -268,7 +325,10 @@ struct CStream {
     key: u64,
     q: SQueue,
     trace: Trace,
+    open: Open,
 }
+/// number of live reply streams per name
+type Open = Rc<RefCell<BTreeMap<u64, i64>>>;
 
 fn cont_of(f: u64) -> Option<bool> {
     match f {
@@ -283,7 +343,10 @@ impl Stream for CStream {
     fn poll_next(self: Pin<&mut Self>, _cx: &mut Context<'_>) -> Poll<Option<Reply<IP>>> {
         let mut q = self.q.borrow_mut();
         match q.iter().position(|(k, _)| *k == self.key) {
-            None => Poll::Pending,
+            None => {
+                note_pend();
+                Poll::Pending
+            }
             Some(i) => match q.remove(i).1 {
                 SEv::Item(v, f) => {
                     self.trace.borrow_mut().push(vec![8, self.key, 1, v, f]);
@@ -300,6 +363,7 @@ impl Stream for CStream {
 
 impl Drop for CStream {
     fn drop(&mut self) {
+        *self.open.borrow_mut().entry(self.key).or_insert(0) -= 1;
         self.trace.borrow_mut().push(vec![6, self.key]);
     }
 }
@@ -310,6 +374,9 @@ struct Svc {
     total: u64,
     q: SQueue,
     trace: Trace,
+    open: Open,
+    /// call tag -> number of polls `handle` suspends for
+    gates: Rc<RefCell<BTreeMap<u64, u64>>>,
 }
 
 impl Service for Svc {
@@ -325,6 +392,18 @@ impl Service for Svc {
     ) -> MethodReply<Self::ReplyParams<'ser>, Self::ReplyStream, Self::ReplyError<'ser>> {
         let [_, c, t, _] = call.method().code();
         self.trace.borrow_mut().push(vec![2, t]);
+        // the scripted suspension of this invocation: Pending for k polls, then the answer
+        let mut left = self.gates.borrow_mut().remove(&t).unwrap_or(0);
+        std::future::poll_fn(|_cx| {
+            if left > 0 {
+                left -= 1;
+                gate_pend();
+                Poll::Pending
+            } else {
+                Poll::Ready(())
+            }
+        })
+        .await;
         match *call.method() {
             M::Echo { t, v, .. } => MethodReply::Single(Some(rp(t, v))),
             M::Say { t, ref s, .. } => MethodReply::Single(Some(RP { t, v: None, s: Some(s.clone()) })),
@@ -341,10 +420,12 @@ impl Service for Svc {
             M::Fail { t, v, .. } => MethodReply::Error(SErr::Bad { t, v }),
             M::Sub { .. } => {
                 self.trace.borrow_mut().push(vec![7, c]);
+                *self.open.borrow_mut().entry(c).or_insert(0) += 1;
                 MethodReply::Multi(CStream {
                     key: c,
                     q: self.q.clone(),
                     trace: self.trace.clone(),
+                    open: self.open.clone(),
                 })
             }
         }
@@ -423,6 +504,8 @@ fn run_case(case: &Value) -> Value {
     let accq = Rc::new(RefCell::new(VecDeque::new()));
     let squeue: SQueue = Rc::new(RefCell::new(Vec::new()));
     let mut known: Vec<u64> = Vec::new();
+    let open: Open = Rc::new(RefCell::new(BTreeMap::new()));
+    let gates: Rc<RefCell<BTreeMap<u64, u64>>> = Rc::new(RefCell::new(BTreeMap::new()));
     let mut payloads: BTreeMap<u64, Vec<u8>> = BTreeMap::new();
 
     let listener = Lst {
@@ -435,8 +518,11 @@ fn run_case(case: &Value) -> Value {
         total: 0,
         q: squeue.clone(),
         trace: trace.clone(),
+        open: open.clone(),
+        gates: gates.clone(),
     };
     let mut fut = Some(Box::pin(Server::new(listener, svc).run()));
+    let mut sleeps: Vec<String> = Vec::new();
     let mut polls = Vec::new();
     let mut exited = false;
 
@@ -476,15 +562,48 @@ fn run_case(case: &Value) -> Value {
                     s.borrow_mut().wfail.push(num(&a[2]));
                 }
             }
+            "hg" => {
+                gates.borrow_mut().insert(num(&a[1]), num(&a[2]));
+            }
+            "wp" => {
+                if let Some(s) = sock(1) {
+                    s.borrow_mut().wpend.push((num(&a[2]), num(&a[3])));
+                }
+            }
             "si" => squeue.borrow_mut().push((num(&a[1]), SEv::Item(num(&a[2]), num(&a[3])))),
             "se" => squeue.borrow_mut().push((num(&a[1]), SEv::End)),
             "p" => {
                 budget_reset_poll();
+                GATE_PENDS.with(|g| g.set(0));
+                let mut pending = false;
                 if let Some(f) = fut.as_mut() {
-                    if let Poll::Ready(_r) = poll_once(f.as_mut()) {
-                        exited = true;
-                        fut = None;
-                        trace.borrow_mut().push(vec![9]);
+                    match poll_once(f.as_mut()) {
+                        Poll::Ready(_r) => {
+                            exited = true;
+                            fut = None;
+                            trace.borrow_mut().push(vec![9]);
+                        }
+                        Poll::Pending => pending = true,
+                    }
+                }
+                // The server went to sleep (Pending, not suspended in the service or in a write): nothing
+                // it could act on may be immediately available -- a connection waiting at the listener,
+                // unread input on a connection that is taking calls, an event of an open reply stream.
+                if pending && GATE_PENDS.with(|g| g.get()) == 0 {
+                    if !accq.borrow().is_empty() {
+                        sleeps.push(format!("poll {}: a connection is waiting at the listener", polls.len()));
+                    }
+                    for (c, sk) in socks.borrow().iter() {
+                        let sk = sk.borrow();
+                        let parked = open.borrow().get(c).copied().unwrap_or(0) > 0;
+                        if sk.accepted && !sk.dropped && !parked && !sk.evs.is_empty() {
+                            sleeps.push(format!("poll {}: connection {} has unread input", polls.len(), c));
+                        }
+                    }
+                    for (k, n) in open.borrow().iter() {
+                        if *n > 0 && squeue.borrow().iter().any(|(key, _)| key == k) {
+                            sleeps.push(format!("poll {}: reply stream {} has an event ready", polls.len(), k));
+                        }
                     }
                 }
                 let tr: Vec<Vec<u64>> = std::mem::take(&mut *trace.borrow_mut());
@@ -528,13 +647,17 @@ fn run_case(case: &Value) -> Value {
     // the echoed strings as serde_json renders them (with the quotes)
     let strs: Vec<String> = strs.iter().map(|x| hex(&serde_json::to_vec(x).unwrap())).collect();
     json!({"id": case["id"], "polls": polls, "exited": exited, "segs": segs, "strs": strs,
-           "tmpl": templates()})
+           "tmpl": templates(), "sleeps": sleeps, "lost_wakeups": take_lost_wakeups()})
 }
 
 fn main() {
     // panics (of the server under test, or budget stops) are results, reported on stdout; nothing is
     // written to stderr, which the driver merges into the same pipe
     std::panic::set_hook(Box::new(|_| {}));
+    // `server notrace` runs without a subscriber (logging disabled): the results must be the same
+    if !std::env::args().any(|a| a == "notrace") {
+        tracing::subscriber::set_global_default(Everything).unwrap();
+    }
     let stdin = std::io::stdin();
     let stdout = std::io::stdout();
     let mut w = std::io::BufWriter::new(stdout.lock());
